@@ -430,6 +430,25 @@ func (c03) RunBatch(ctx *core.Ctx, batch int) {
 				}
 				ctx.Count("relation_trees", 1)
 			}
+			// field names that differ only in letter case are different columns (identifiers are
+			// quoted, hence case-sensitive): within one query, and from one call to the next
+			for _, t := range []*qt.Node{
+				qt.Or(qt.F("status", qt.Int(1)), qt.F("Status", qt.Int(2))),
+				qt.And(qt.F("s", qt.Word("x")), qt.Not(qt.F("S", qt.Word("x")))),
+				qt.Or(qt.Range("Nn", qt.Int(1), qt.Int(5), true), qt.Cmp("nN", ">", qt.Int(7))),
+				qt.And(qt.List("tag", qt.Word("a"), qt.Word("b")), qt.F("TAG", qt.Wild("a*"))),
+				qt.Or(qt.F("Status", qt.Int(1)), qt.F("status", qt.Int(2))),
+				qt.F("STATUS", qt.Int(3)), qt.F("status", qt.Int(3)), qt.F("sTATUS", qt.Word("x")),
+			} {
+				t := t
+				text := qt.Print(t, qt.Style{})
+				if t.IsLeaf() {
+					ctx.Case(text, func() { c03Leaf(ctx, leafCase{"relation", t, ""}, text, true) })
+				} else {
+					ctx.Case(text, func() { c03Compound(ctx, t, text, "") })
+				}
+				ctx.Count("case_pair_trees", 1)
+			}
 		}
 		r := ctx.Rand("deep")
 		leaves := fragLeaves(true)
